@@ -12,6 +12,7 @@ From PowHsm Require Import Proofs.SrcEquivProto.
 From PowHsm Require Import Proofs.SrcLiftC02.
 From PowHsm Require Import Proofs.SrcEquivGateM.
 From PowHsm Require Import Proofs.SrcLiftGate.
+From PowHsm Require Import Proofs.SrcEquivGateV1M.
 Open Scope N_scope.
 
 (* for every JSON value the request gate answers or accepts; it never raises (rests on the generated command/validator tables) *)
@@ -148,5 +149,16 @@ Theorem C03_source_raises_only_from_operation :
            assoc_str cmd (dispatch_table V5) = Some opname /\
            run_operation keccak kind V5 opname req = Some op /\ op w = (Exn e, w').
 Proof. exact (@src_raises_only_from_operation). Qed.
+
+(* the whole legacy (version 1) request path of the source = the model's handle_request in mode V1 on every request and world *)
+Theorem C03_source_whole_request_path_v1_is_model :
+  forall (keccak : bytes -> bytes) (kind : dongle_kind) (init : ValM.pm pv)
+           (cm : string -> pv -> list pv -> pr pv) (self : pv) (request : json) 
+           (w : world),
+         SrcEquivProtoM.init_ok kind init ->
+         path_oracle_ok_v1 cm ->
+         SrcM.srcm_HSM1ProtocolLedger____internal_handle_request cm init self (of_json request) w =
+         SrcEquivDongleM.mres of_json (handle_request keccak kind V1 request w).
+Proof. exact (@srcm_handle_request_v1_ok). Qed.
 
 Example C03_nonvacuous : True. Proof. exact I. Qed. (* concrete lifetimes closed by vm_compute in Proofs/C03.v, including one that does stop (status outside the device range) *)
